@@ -209,3 +209,35 @@ Proof.
           HFlush 0; HFlush 0].
   vm_compute. split; reflexivity.
 Qed.
+
+(* ---- atomic append: the two-step writer machine is the one-step machine ---- *)
+Lemma run2_atomic_append : forall atomic l w,
+  hbase (hist_run2 atomic true w l) = hist_run atomic (hbase w) (proj2steps l) /\
+  hinflight (hist_run2 atomic true w l) = hinflight w.
+Proof.
+  intros atomic l. induction l as [|s l IH]; intros w; [split; reflexivity|].
+  unfold hist_run2. cbn [fold_left]. fold (hist_run2 atomic true (hist_step2 atomic true w s) l).
+  destruct (IH (hist_step2 atomic true w s)) as [H1' H2']. rewrite H1', H2'.
+  destruct s as [s1|j]; cbn [hist_step2 hbase hinflight proj2steps flat_map app]; split; reflexivity.
+Qed.
+
+Lemma history_is_log_mem : forall ops0 l i,
+  let w := hist_run2 true true (hw2_of ops0) l in
+  hpend (hbase w) = [] -> hinflight w = [] ->
+  get_history (hbase w) i = of_inv i (stamped (log (csys (hcw (hbase w))))).
+Proof.
+  intros ops0 l i w Hp _. unfold w in *. destruct (run2_atomic_append true l (hw2_of ops0)) as [Hb _].
+  rewrite Hb in *. cbn [hbase hw2_of] in *. now apply history_is_log.
+Qed.
+
+(* a writer that reads, extends and stores back loses the entry of a writer that overlaps it *)
+Lemma nonatomic_append_loses_entry :
+  exists l, let w := hist_run2 true false (hw2_of [ORegister 0 None]) l in
+            hpend (hbase w) = [] /\ hinflight w = [] /\
+            map he_status (of_inv 0 (stamped (log (csys (hcw (hbase w)))))) = [RUNNING; PENDING; REGISTERED] /\
+            map he_status (get_history (hbase w) 0) = [RUNNING; REGISTERED].
+Proof.
+  exists [H1 (HAct (ATrans 1 0 PENDING (Some 1))); H1 (HAct (ATrans 1 0 RUNNING (Some 1)));
+          H1 (HFlush 0); H1 (HFlush 0); HStore 1; HStore 0].
+  vm_compute. repeat split; reflexivity.
+Qed.
